@@ -169,8 +169,11 @@ def length_region(mode):
         exit_ensures=[
             ('short-form', '%s < 128 ==> (length == %s and substrate.pos == %s + 1)' % (D0, D0, P0)),
             # C09: *every* long form is accepted, leading zero octets included: the value of the octets counts
-            ('long-form-any', '%s > 128 ==> (length == X.be_val(X.sub(substrate.data, %s + 1, %s + 1 + (%s - 128)), 0, '
-                              '%s - 128) and substrate.pos == %s + 1 + (%s - 128))' % (D0, P0, P0, D0, D0, P0, D0)),
+            # (the count of length octets is written `first & 0x7F`, as the code does: the same term, so that the solver
+            # need not rediscover first - 128 == first & 0x7F inside sequence terms -- that made this obligation take
+            # 5-20 s and flip to `unknown` under load)
+            ('long-form-any', '%s > 128 ==> (length == X.be_val(X.sub(substrate.data, %s + 1, %s + 1 + (%s & 0x7F)), 0, '
+                              '%s & 0x7F) and substrate.pos == %s + 1 + (%s - 128))' % (D0, P0, P0, D0, D0, P0, D0)),
             ('indefinite', '%s == 128 ==> (length == -1 and substrate.pos == %s + 1)' % (D0, P0)),
             ('next-state', 'state == stGetValueDecoder')],
         # C15: the indefinite form is refused exactly when the codec says so (DER)
